@@ -59,7 +59,9 @@ Print Assumptions C30_invariant.
 (* the maxima: numIn <= maxIn and numOut <= maxOut in every reachable state of a history none of
    whose operations lies in the guard of the known finding unreserve-over-limit
    (ModelSpec.guard_unreserve: outside reserved-only mode, removeReservedPeers whose first peer is
-   reserved, connected and whose direction is full; or setReservedPeer that un-reserves a peer) *)
+   reserved, connected and whose direction is full; or setReservedPeer that un-reserves some peer
+   and either reserves a new one first (the allocSlots of that phase may connect the very peer
+   that is un-reserved afterwards) or un-reserves a peer that is connected in a full direction) *)
 Theorem C30_slots_partial : forall mi mo ro h s,
   (mi < 4294967296)%N -> (mo < 4294967296)%N -> hist_wf h ->
   unguarded fixed (init_pset mi mo ro) h ->
